@@ -2,7 +2,7 @@
 //! the residue-class computation and extended gcd it is built on). The `add_*_bound` refinements of
 //! `IntervalDomain` and `DataDomain` are decided by the result-validation engine.
 
-use crate::c02::{any_iv, from_interval, ref_contains, to_interval, wf};
+use crate::c02::{any_iv, read_back, ref_contains, to_interval, wf_iv};
 use crate::common::*;
 use crate::{chk, cov};
 use cwe_checker_lib::abstract_domain::{IntervalDomain, SpecializeByConditional, TryToInterval};
@@ -17,9 +17,14 @@ pub fn intersect<S: Src>(s: &mut S, bits: u32, max_stride: u64) {
     let both = ref_contains(&a, v) && ref_contains(&b, v);
     match to_interval(&a).signed_intersect(&to_interval(&b)) {
         Ok(r) => {
-            chk!(s, wf(&r, bits), "C04 intersect: result interval is not well-formed");
-            if both {
-                chk!(s, ref_contains(&from_interval(&r), v), "C04 intersect: a common member of both intervals was removed");
+            match read_back(s, &r, bits) {
+                None => chk!(s, false, "C04 intersect: result interval has the wrong width"),
+                Some(m) => {
+                    chk!(s, wf_iv(&m), "C04 intersect: result interval is not well-formed");
+                    if both {
+                        chk!(s, ref_contains(&m, v), "C04 intersect: a common member of both intervals was removed");
+                    }
+                }
             }
             cov!(s, both && r.stride > 1 && a.stride != b.stride, "strided intersection of differently strided intervals reached");
             std::mem::forget(r);
@@ -43,12 +48,10 @@ pub fn not_equal<S: Src>(s: &mut S, bits: u32, max_stride: u64) {
     match d.add_not_equal_bound(&mk(bits, bound as u64)) {
         Ok(r) => {
             if sel {
-                match r.try_to_interval() {
-                    Ok(i) => {
-                        chk!(s, ref_contains(&from_interval(&i), v), "C04 not-equal: a member different from the bound was removed");
-                        std::mem::forget(i);
-                    }
-                    Err(e) => std::mem::forget(e),
+                let (i, _, _, _) = r.verif_parts();
+                match read_back(s, i, bits) {
+                    Some(m) => chk!(s, ref_contains(&m, v), "C04 not-equal: a member different from the bound was removed"),
+                    None => chk!(s, false, "C04 not-equal: result interval has the wrong width"),
                 }
             }
             cov!(s, a.stride > 1 && bound == a.e, "bound equal to the end of a strided interval reached");
